@@ -1,13 +1,18 @@
 """C16 - Detector chain: right quantum efficiency at every pixel, exact digitisation."""
 from contracts import detector as _d
+from contracts import radiometry as _r
 
 META = {
-    'level_text': 'Proof for all image sizes and any number of wavelength slices: collect_charge is, at every pixel, the sum over slices of photons x QE for scalar and per-wavelength QE, for cubes and single frames; collect_charge_bayer, for the patterns RGGB / GRBG / BGGR / 3x3 RGBGBRBRG / 1x1 and oversampling 1-5 with symbolic image size (any number of tiles), gives every oversampled sub-pixel exactly the QE of the colour the tiled pattern assigns to its native pixel, flattened and per channel; format_bayer_string is row-major and refuses non-square / foreign strings; adc, for scalar, polynomial (order 1-3), per-pixel and per-pixel-polynomial gains with and without saturation, returns max(floor(sum_d gain_d min(e, cap)^(K-d)), 0) at every pixel, never negative, warns exactly when a pixel exceeds the capacity and warnings are requested, and does not write to its input. With QE given as a Spectrum (Spectrum.sample abstract as a pointwise interpolant; caller units nm / um / m / angstrom) the spectrum is sampled exactly once, at the caller\'s wavelengths and in the caller\'s wavelength unit, and the charge is the slice sum of photons x that sample. The numerical agreement of the Spectrum representation across wavelength units (Spectrum.sample converts and interpolates: scipy), output dtype, monotonicity and a wider set of patterns are bounded native stand-ins.',
+    'level_text': 'Proof for all image sizes and any number of wavelength slices: collect_charge is, at every pixel, the sum over slices of photons x QE for scalar and per-wavelength QE, for cubes and single frames; collect_charge_bayer, for the patterns RGGB / GRBG / BGGR / 3x3 RGBGBRBRG / 1x1 and oversampling 1-5 with symbolic image size (any number of tiles), gives every oversampled sub-pixel exactly the QE of the colour the tiled pattern assigns to its native pixel, flattened and per channel; format_bayer_string is row-major and refuses non-square / foreign strings; adc, for scalar, polynomial (order 1-3), per-pixel and per-pixel-polynomial gains with and without saturation, returns max(floor(sum_d gain_d min(e, cap)^(K-d)), 0) at every pixel, never negative, warns exactly when a pixel exceeds the capacity and warnings are requested, and does not write to its input. With QE given as a Spectrum (Spectrum.sample abstract as a pointwise interpolant; caller units nm / um / m / angstrom) the spectrum is sampled exactly once, at the caller\'s wavelengths and in the caller\'s wavelength unit, and the charge is the slice sum of photons x that sample; the unit conversion that sampling performs on a unitless spectrum (Spectrum.to, all 16 unit pairs) scales the grid by the unit ratio, records the new unit with it, keeps the values and is undone by the reverse conversion. The numerical agreement of the Spectrum representation across wavelength units (Spectrum.sample converts and interpolates: scipy), output dtype, monotonicity and a wider set of patterns are bounded native stand-ins.',
     'level_note': 'Patterns and oversampling factors are enumerated (finite list), image sizes and cube depth are symbolic. scipy interp1d (Spectrum QE) outside the verifier. A2 reals; np.floor exact.',
 }
 FUNCTIONS = ['lentil.detector.collect_charge#cube-scalar-qe', 'lentil.detector.collect_charge#cube-vector-qe',
              'lentil.detector.collect_charge#frame-scalar-qe'] + list(_d.CC_SPECTRUM) + list(_d.BAYER) + list(_d.ADC)
 LEMMAS = list(_d.LEMMAS)
+# the efficiency spectrum is unitless: Spectrum.sample converts it with Spectrum.to before interpolating, so the
+# conversion of a unitless spectrum (grid scaled by the unit ratio, recorded unit updated with it, values kept,
+# round trip restores) carries the any-wavelength-unit clause, also for a spectrum object that is used again
+LEMMAS = LEMMAS + [l for l in _r.spectrum_to_lemmas() if ',None->' in l[0]]
 
 
 def bounded(tier, seed):
